@@ -20,6 +20,8 @@ def corpus_plan(tier):
         return [
             ("exh-depth1-1d", dict(acts=replay.ALL_ACTS, maxlen=1, preset="1d", sim=False, smax=1, idxpad=0, emit_all=True), 16),
             ("exh-depth1-2d", dict(acts=NO_INDEX, maxlen=1, preset="2d", sim=False, emit_all=True), 4),
+            # scans and reductions over every chunking of the 6- and 7-element sources (7-block trees and scans)
+            ("exh-depth1-scan-reduce-1d7", dict(acts=["Cumulative", "Reduce", "Diff"], maxlen=1, preset="1d7", sim=False, emit_all=True), 64),
         ]
     return [
         ("exh-depth1-1d", dict(acts=replay.ALL_ACTS, maxlen=1, preset="1d", sim=False, smax=2, idxpad=1, emit_all=True), 16),
